@@ -170,6 +170,8 @@ def gen_cases(rnd, n):
             q = {'items': [], 'except': sorted(set(rnd.randrange(3) for _ in range(rnd.randint(1, 2))))}
         elif shape == 'agg':
             q = {'items': [{'e': ['a', 0]}, {'agg': 'count', 'e': ['lit', qgen.num(1)]}, {'agg': 'any_value', 'e': ['a', 1]}], 'group': [['a', 0]]}
+            if rnd.random() < 0.5:
+                q['top'] = rnd.randint(0, 2)        # fewer rows than groups: the writer chain is cut short, every sink must still be completed (finish)
         else:
             for _i in range(rnd.randint(1, 3)):
                 q['items'].append(rnd.choice([{'e': ['a', rnd.randrange(3)]}, {'e': ['concat', ['a', 0], ['a', 1]]}, {'e': ['lit', 'k,"v']}, 'star', {'e': ['nr']},
